@@ -11,6 +11,8 @@ NOTE = ("Trusts clang 14's parser, Sema and CFG builder, the condition normalisa
         "Value clauses listed as not decided in the evidence are outside the claim.")
 
 CLAIMED = {
+ "C01": ("E-EFFECT", "Whole-library who-may-call tables for every signalling / reaping / cgroup.kill / cgroup.freeze / xattr-write sink, argument provenance (by expansion of single-definition locals) from kill(2)'s pid back to openat(victim dir fd, cgroup.procs) and from every KillCandidate back to rankForKilling(configured cgroups | children under the recursive guard | re-resolved by inode), the pid>0 guard, and never-after-success on the kill loops. These are properties of the resolved program, so they hold for all trees, configurations and histories; behaviour of the kernel and path-based xattr TOCTOU are not decided.", "4/C01"),
+ "C06": ("E-PATH", "Static path analysis of the suspend/resume code: ASYNC_PAUSED saves (this plugin, current context) and returns; the resume branch restores the saved context before clearing it, clears before running, restarts at the saved plugin by identity and returns; scope guard covers all exits; kill plugins return ASYNC_PAUSED only on their documented edges; suspended state is per ruleset instance. Structural clauses only; uuid freshness as a value is not decided.", "4/C06"),
  "C02": ("E-PATH", "Static path analysis of the engine's control structure (per-iteration exactly-once execution of every detector/prerun, no early exits, switch tables on PluginRet, guard dominance of chain starts, drop-ins before base, main-loop order). Holds for all configurations and return-value histories because it is a property of the CFG, not of sampled runs. Decides the structural clauses only.", "4/C02"),
  "C05": ("E-PATH", "Static path analysis over the clang CFGs of the real source: the strict steady-clock pause gate dominates every chain start/resume; the invoking ruleset is set on every action path; STOP writes the pause iff not overridden and resets the flag; pause_actions callers return STOP. Decides these necessary conditions for all inputs and histories at once, not the clock arithmetic.", "4/C05"),
 }
